@@ -232,8 +232,10 @@ Proof.
       unfold inner_good; simpl. repeat split; auto. destruct b; lia.
     - unfold inner_good; simpl. repeat split; auto. intros _.
       apply nth_error_none_len; assumption. }
-  destruct (in_script inn) as [|[e|] sc] eqn:Esc.
+  destruct (in_script inn) as [|[|e|f] sc] eqn:Esc.
   - simpl in H. apply Hgen with (sc := []).
+    destruct (nth_error (in_items inn) (in_pos inn)); exact H.
+  - simpl in H. apply Hgen with (sc := sc).
     destruct (nth_error (in_items inn) (in_pos inn)); exact H.
   - rewrite Hl in H. simpl in H. inversion H; subst; clear H.
     unfold inner_good; simpl. auto.
@@ -644,6 +646,12 @@ Proof.
     simpl in Hin. destruct Hin as [Hin|[]]. inversion Hin; subst. exact He.
 Qed.
 
+Lemma Inv_apply_fx W st f : Inv W st -> Inv W (apply_fx st f).
+Proof. intros (Hc & Hw & Hi). destruct f as [[e|]|]; unfold Inv; simpl; auto. Qed.
+
+Lemma apply_fx_iters st f : st_iters (apply_fx st f) = st_iters st.
+Proof. destruct f as [[e|]|]; reflexivity. Qed.
+
 Lemma Inv_tick W st : Inv W st -> Inv W (tick st).
 Proof. intros (Hc & Hw & Hi). unfold Inv; simpl. auto. Qed.
 
@@ -747,9 +755,9 @@ Proof. intro H. exists m. rewrite upd_nth_same by assumption. auto. Qed.
 
 Ltac frame_with m' := exists m'; simpl; rewrite ?release_sf_iters; auto.
 
-Lemma bg_step_inv W st i m :
+Lemma bg_step_inv W st c i m :
   Inv W st -> nth_error (st_iters st) i = Some (IMiss m) ->
-  Inv W (fst (bg_step st i m)) /\ bg_frame st (fst (bg_step st i m)) i m.
+  Inv W (fst (bg_step st c i m)) /\ bg_frame st (fst (bg_step st c i m)) i m.
 Proof.
   intros HI Hn.
   assert (Hg : miss_good W m) by (apply (Inv_iter _ _ _ _ HI Hn)).
@@ -807,7 +815,7 @@ Proof.
     subst cl.
     assert (Hns : in_stopped inn = false) by (apply Hst; discriminate).
     set (mm := mkMI v k mk kf mx inn buf recs true ini PBgHead o) in *.
-    destruct (inner_call false (bg_ctx st mm) inn) as [inn' r] eqn:Ecall.
+    destruct (inner_call false c inn) as [inn' r] eqn:Ecall.
     destruct (inner_call_spec _ _ _ _ _ _ Hin Ecall) as (Hin' & Hs' & Hr).
     rewrite Hns in Hs'.
     assert (Hp : in_pos inn' = in_pos inn).
@@ -860,7 +868,7 @@ Proof.
     subst cl.
     assert (Hns : in_stopped inn = false) by (apply Hst; discriminate).
     set (mm := mkMI v k mk kf mx inn buf recs true ini PBgLoop o) in *.
-    destruct (inner_call true (bg_ctx st mm) inn) as [inn' r] eqn:Ecall.
+    destruct (inner_call true c inn) as [inn' r] eqn:Ecall.
     destruct (inner_call_spec _ _ _ _ _ _ Hin Ecall) as (Hin' & Hs' & Hr).
     rewrite Hns in Hs'.
     destruct r as [t| |e].
@@ -1078,7 +1086,8 @@ Proof.
       assert (Hg : miss_good W m) by (apply (Inv_iter _ _ _ _ HI0 En)).
       destruct (miss_next_good _ _ _ _ _ Hg Em) as (Hg' & Hk & Hv & Hc & Hs).
       pose proof (miss_next_out m c) as Hout. rewrite Em in Hout. simpl in Hout.
-      simpl. split; [apply Inv_set_iter; assumption|]. split.
+      simpl. rewrite apply_fx_iters.
+      split; [apply Inv_set_iter; [apply Inv_apply_fx|]; assumption|]. split.
       * intros it k0 Hit Hlive Hkey. inversion Hit; subst it. simpl in *.
         inversion Hkey; subst k0.
         exists r, (IMiss m'). split; [reflexivity|]. split; [eapply nth_error_upd_same; eassumption|].
@@ -1108,7 +1117,8 @@ Proof.
     + destruct (inner_call true c inn) as [inn' r] eqn:Ei.
       assert (Hg : byp_good W k inn o) by (apply (Inv_iter _ _ _ _ HI0 En)).
       destruct (byp_call_good _ _ _ _ _ _ _ _ Hg Ei) as (Hg' & Hst' & Hs). simpl in Hg', Hs.
-      simpl. split; [apply Inv_set_iter; assumption|]. split.
+      simpl. rewrite apply_fx_iters.
+      split; [apply Inv_set_iter; [apply Inv_apply_fx|]; assumption|]. split.
       * intros it k0 Hit Hlive Hkey. inversion Hit; subst it. simpl in *.
         inversion Hkey; subst k0.
         exists r, (IBypass k inn' (match r with RItem t => o ++ [t] | _ => o end)).
@@ -1133,7 +1143,8 @@ Proof.
     + destruct (miss_head m c) as [m' r] eqn:Em.
       assert (Hg : miss_good W m) by (apply (Inv_iter _ _ _ _ HI0 En)).
       destruct (miss_head_good _ _ _ _ _ Hg Em) as (Hg' & Hk & Hv & Hc & Ho & Hs).
-      simpl. split; [apply Inv_set_iter; assumption|]. split.
+      simpl. rewrite apply_fx_iters.
+      split; [apply Inv_set_iter; [apply Inv_apply_fx|]; assumption|]. split.
       * intros it k0 Hit Hlive Hkey. inversion Hit; subst it. simpl in *.
         inversion Hkey; subst k0.
         exists r, (IMiss m'). split; [reflexivity|]. split; [eapply nth_error_upd_same; eassumption|].
@@ -1162,7 +1173,8 @@ Proof.
     + destruct (inner_call false c inn) as [inn' r] eqn:Ei.
       assert (Hg : byp_good W k inn o) by (apply (Inv_iter _ _ _ _ HI0 En)).
       destruct (byp_call_good _ _ _ _ _ _ _ _ Hg Ei) as (Hg' & Hst' & Hs). simpl in Hg', Hs.
-      simpl. split; [apply Inv_set_iter; assumption|]. split.
+      simpl. rewrite apply_fx_iters.
+      split; [apply Inv_set_iter; [apply Inv_apply_fx|]; assumption|]. split.
       * intros it k0 Hit Hlive Hkey. inversion Hit; subst it. simpl in *.
         inversion Hkey; subst k0.
         exists r, (IBypass k inn' o).
@@ -1214,9 +1226,15 @@ Proof.
   - (* bg *)
     simpl st_iters. destruct (nth_error (st_iters st) i) as [[m|h|k inn o|]|] eqn:En;
       try (simpl; split; [exact HI|]; split; [exact I|]; intros j itj Hj; apply frame_same; exact Hj).
-    destruct (bg_step_inv W (tick st) i m HI En) as (H1 & H2).
+    set (cc := bg_ctx (tick st) m).
+    set (st1 := apply_fx (tick st) (bg_fx m cc)).
+    assert (HI1 : Inv W st1) by (apply Inv_apply_fx; exact HI).
+    assert (En1 : nth_error (st_iters st1) i = Some (IMiss m)) by (unfold st1; rewrite apply_fx_iters; exact En).
+    destruct (bg_step_inv W st1 cc i m HI1 En1) as (H1 & H2).
     split; [exact H1|]. split; [exact I|].
-    apply (bg_frame_out_frame (tick st) _ i m); auto.
+    intros j it Hj.
+    apply (bg_frame_out_frame st1 _ i m (OBg i) (snd (bg_step st1 cc i m))); auto.
+    unfold st1; rewrite apply_fx_iters; exact Hj.
   - (* bg timeout *)
     simpl st_iters. destruct (nth_error (st_iters st) i) as [[m|h|k inn o|]|] eqn:En;
       try (simpl; split; [exact HI|]; split; [exact I|]; intros j itj Hj; apply frame_same; exact Hj).
@@ -1410,6 +1428,9 @@ Proof.
   destruct (Nat.eqb n i); exact H.
 Qed.
 
+Lemma SInv_apply_fx st f : SInv st -> SInv (apply_fx st f).
+Proof. intros (Hw & Hi). destruct f as [[e|]|]; split; assumption. Qed.
+
 Lemma miss_size_none v k mk kf mx inn recs cl ini ph o :
   miss_size (mkMI v k mk kf mx inn None recs cl ini ph o).
 Proof. sz. Qed.
@@ -1435,8 +1456,8 @@ Proof.
   - inversion H; subst. split; [split; assumption|]. split; [reflexivity|sz].
 Qed.
 
-Lemma bg_step_size st i m :
-  SInv st -> nth_error (st_iters st) i = Some (IMiss m) -> SInv (fst (bg_step st i m)).
+Lemma bg_step_size st c i m :
+  SInv st -> nth_error (st_iters st) i = Some (IMiss m) -> SInv (fst (bg_step st c i m)).
 Proof.
   intros HS Hn.
   assert (Hm : miss_size m).
@@ -1466,7 +1487,7 @@ Proof.
     + destruct (alist_get k (st_cache st)) as [[r0 t0|m0 t0]|]; simpl;
         apply SInv_set_iter; try assumption; sz.
   - set (mm := mkMI v k mk kf mx inn buf recs cl ini PBgHead o) in *.
-    destruct (inner_call false (bg_ctx st mm) inn) as [inn' r].
+    destruct (inner_call false c inn) as [inn' r].
     destruct r as [t| |e].
     + simpl; apply SInv_set_iter; try assumption; sz.
     + destruct (flush st (mi_set_inner mm inn')) as [st1 m2] eqn:Efl.
@@ -1479,7 +1500,7 @@ Proof.
     + destruct (Nat.eqb ow owner); simpl; [exact HS|]. apply SInv_set_iter; [assumption|exact Hm].
     + apply SInv_set_iter; [assumption|exact Hm].
   - set (mm := mkMI v k mk kf mx inn buf recs cl ini PBgLoop o) in *.
-    destruct (inner_call true (bg_ctx st mm) inn) as [inn' r].
+    destruct (inner_call true c inn) as [inn' r].
     destruct r as [t| |e].
     + destruct v.
       * unfold add_to_buffer; simpl. destruct buf as [b|]; simpl.
@@ -1520,7 +1541,7 @@ Proof.
       destruct (q_openerr q); simpl; apply Hpush; [exact I|].
       simpl. unfold miss_size; simpl. destruct (q_var q); [split; left; reflexivity|lia].
   - simpl st_iters. destruct (nth_error (st_iters st) i) as [[m|h|k inn o|]|] eqn:En; simpl; try exact HS.
-    + destruct (miss_next m c) as [m' r] eqn:Em. simpl. apply SInv_set_iter; [assumption|].
+    + destruct (miss_next m c) as [m' r] eqn:Em. simpl. apply SInv_set_iter; [apply SInv_apply_fx; assumption|].
       specialize (Hget _ _ En). simpl.
       destruct m as [v k mk kf mx inn buf recs cl ini ph o]. unfold miss_next in Em; simpl in Em.
       destruct cl; [inversion Em; subst; exact Hget|].
@@ -1533,15 +1554,15 @@ Proof.
       * exact Hget.
       * destruct (is_cancel e); simpl; [exact Hget|sz].
     + destruct (hit_call true h c). simpl. apply SInv_set_iter; [assumption|exact I].
-    + destruct (inner_call true c inn). simpl. apply SInv_set_iter; [assumption|exact I].
+    + destruct (inner_call true c inn). simpl. apply SInv_set_iter; [apply SInv_apply_fx; assumption|exact I].
   - simpl st_iters. destruct (nth_error (st_iters st) i) as [[m|h|k inn o|]|] eqn:En; simpl; try exact HS.
-    + destruct (miss_head m c) as [m' r] eqn:Em. simpl. apply SInv_set_iter; [assumption|].
+    + destruct (miss_head m c) as [m' r] eqn:Em. simpl. apply SInv_set_iter; [apply SInv_apply_fx; assumption|].
       specialize (Hget _ _ En). simpl.
       destruct m as [v k mk kf mx inn buf recs cl ini ph o]. unfold miss_head in Em; simpl in Em.
       destruct cl; [inversion Em; subst; exact Hget|].
       destruct (inner_call false c inn) as [inn' r0]. inversion Em; subst. exact Hget.
     + destruct (hit_call false h c). simpl. apply SInv_set_iter; [assumption|exact I].
-    + destruct (inner_call false c inn). simpl. apply SInv_set_iter; [assumption|exact I].
+    + destruct (inner_call false c inn). simpl. apply SInv_set_iter; [apply SInv_apply_fx; assumption|exact I].
   - simpl st_iters. destruct (nth_error (st_iters st) i) as [[m|h|k inn o|]|] eqn:En; simpl; try exact HS;
       try (apply SInv_set_iter; [assumption|exact I]).
     apply SInv_set_iter; [assumption|]. specialize (Hget _ _ En). simpl.
@@ -1549,7 +1570,7 @@ Proof.
     destruct cl; [exact Hget|].
     match goal with |- context [if ?c then _ else _] => destruct c end; exact Hget.
   - simpl st_iters. destruct (nth_error (st_iters st) i) as [[m|h|k inn o|]|] eqn:En; simpl; try exact HS.
-    apply (bg_step_size (tick st) i m HS En).
+    apply bg_step_size; [apply SInv_apply_fx; exact HS|rewrite apply_fx_iters; exact En].
   - simpl st_iters. destruct (nth_error (st_iters st) i) as [[m|h|k inn o|]|] eqn:En; simpl; try exact HS.
     specialize (Hget _ _ En).
     destruct m as [v k mk kf mx inn buf recs cl ini ph o]. unfold bg_timeout; simpl.
@@ -1583,6 +1604,20 @@ Proof.
 Qed.
 
 (* ========================================================================================== *)
+(* 7b. An element taken from the inner iterator by a successful step is always returned AND       *)
+(*     buffered, whatever happened to the caller's context while the step was in progress        *)
+(*     (the code looks at the inner error only, never at ctx.Err() after a successful step).      *)
+
+Lemma next_success_is_buffered_lemma m c inn t :
+  mi_closing m = false -> inner_call true c (mi_inner m) = (inn, RItem t) ->
+  snd (miss_next m c) = RItem t /\
+  mi_buf (fst (miss_next m c)) = buf_push (mi_var m) (mi_max m) (mi_buf m) t /\
+  mi_out (fst (miss_next m c)) = mi_out m ++ [t].
+Proof.
+  intros Hcl Hc. unfold miss_next. rewrite Hcl, Hc. simpl. auto.
+Qed.
+
+(* ========================================================================================== *)
 (* 8. Concrete worlds used by the non-vacuity examples of Props/C09.v                           *)
 
 Definition ex_ta : tuple := mkT [100;58;49] [114] [117;58;97] [] [] 5.            (* d:1#r@u:a *)
@@ -1590,7 +1625,7 @@ Definition ex_tb : tuple := mkT [100;58;49] [114] [117;58;98] [99;49] [120] 6.  
 Definition ex_tc : tuple := mkT [100;58;49] [114] [103;58;120;35;109] [] [] 7.    (* d:1#r@g:x#m *)
 Definition ex_full : list tuple := [ex_ta; ex_tb; ex_tc].
 
-Definition ex_q (v : variant) (script : list (option errk)) (lossy : bool) : qdesc :=
+Definition ex_q (v : variant) (script : list sev) (lossy : bool) : qdesc :=
   mkQ v KRut false [100;58;49] [114] [] 7 [100;101] 10 ex_full script lossy None.
 
 Definition ex_world : world :=
@@ -1599,16 +1634,25 @@ Definition ex_world : world :=
 (* read one tuple, get a cancellation, stop; the goroutine meets an unrelated error at Head, drains,
    flushes; then a second read is served from the cache *)
 Definition ex_history (v : variant) : list op :=
-  [OOpen (ex_q v [None; Some ECancel; Some EOther] false);
+  [OOpen (ex_q v [SPass; SFail ECancel; SFail EOther] false);
    ONext 0 CLive; ONext 0 CLive; ONext 0 CCancelled; OStop 0;
    OBg 0; OBg 0; OBg 0; OBg 0; OBg 0; OBg 0;
    OOpen (ex_q v [] false);
    ONext 1 CLive; ONext 1 CLive; OHead 1 CLive; ONext 1 CLive; ONext 1 CLive].
 
+(* the consumer's context is cancelled WHILE the second inner Next is in progress (the call still
+   returns its tuple); the consumer then sees the cancellation, stops; the drain completes *)
+Definition ex_fx_history (v : variant) : list op :=
+  [OOpen (ex_q v [SPass; SFx (FxReq ECancel)] false);
+   ONext 0 CLive; ONext 0 CLive; ONext 0 CCancelled; OStop 0;
+   OBg 0; OBg 0; OBg 0; OBg 0; OBg 0;
+   OOpen (ex_q v [] false);
+   ONext 1 CLive; ONext 1 CLive; ONext 1 CLive; ONext 1 CLive].
+
 (* the same with an inner iterator that drops the element it was about to return when it reports
    the cancellation *)
 Definition ex_lossy_history : list op :=
-  [OOpen (ex_q V1 [None; Some ECancel] true);
+  [OOpen (ex_q V1 [SPass; SFail ECancel] true);
    ONext 0 CLive; ONext 0 CLive; OStop 0; OBg 0; OBg 0; OBg 0; OBg 0; OBg 0].
 
 Lemma ex_history_ok v : Forall (op_ok ex_world) (ex_history v).
